@@ -353,7 +353,9 @@ def run_c19(ctx, b):
         heights = pure_heights(c)
         noctx = True
         if cname == 'B':
-            heights = [h for h in heights if h not in (99, 201)]   # the outer "far" heights add nothing new
+            # purity depends on the side of each boundary, not on adjacency: keep below/at of both boundaries
+            # (100 and 199 lie between them), -1 stands above all of them
+            heights = [h for h in heights if h not in (101, 201)]
         d = ctx.stage()
         # 1. the property on the mechanism as repaired (this is what the code is claimed to be)
         if export:
